@@ -39,7 +39,7 @@ def finalize(agg, tier):
                     out.append("suite/mode never exercised: %s aead=%d %s" % (cv, a, m))
     for n in ("enc_compared", "sealed_compared", "offered_genuine", "offered_corrupted", "offered_replayed", "offered_out_of_order",
               "recovered_after_rejection", "setup_errors_refused", "mismatched_receivers_rejected", "ephemeral_keys_captured",
-              "aead_id_given_as:int", "aead_id_given_as:enum", "sender_key_is_recipient_key"):
+              "aead_id_given_as:int", "aead_id_given_as:enum", "sender_key_is_recipient_key", "long_inputs:info", "long_inputs:psk"):
         if not c.get(n):
             out.append("deciding counter %s is zero" % n)
     return out
@@ -105,10 +105,17 @@ def make_exchange(ctx, M, HPKE, ECC, cap, rng, curve, aead, mode, info=None, psk
         # a party that seals an authenticated message to itself: sender key pair = recipient key pair (RFC 9180 allows it)
         sk = rk if rng.random() < 0.5 else ECC.import_key(rk.export_key(format="DER"))
         ctx.count("sender_key_is_recipient_key")
+    LONG = [65535, 65536, 65537, 131072, 196608, 1 << 20, 65536 + 64, 65536 - 64, 32768, 16384]     # RFC 9180 7.2.1 allows ~2^61
     if info is None:
         info = rng.randbytes(_len(rng))
+        if rng.random() < 0.05:
+            info = rng.randbytes(rng.choice(LONG))
+            ctx.count("long_inputs:info")
     if psk_pair is None and mode in ("psk", "auth_psk"):
         psk_pair = (rng.randbytes(rng.choice([1, 8, 100])), rng.randbytes(rng.choice([32, 33, 64, 100])))
+        if rng.random() < 0.08:
+            psk_pair = (rng.randbytes(rng.choice(LONG)), psk_pair[1]) if rng.random() < 0.5 else (psk_pair[0], rng.randbytes(rng.choice(LONG)))
+            ctx.count("long_inputs:psk")
     # the suite is named by the enum member or by its documented number (AEAD is an IntEnum: 0x0001 == AEAD.AES128_GCM)
     as_int = rng.random() < 0.3
     kw = {"receiver_key": rk.public_key(), "aead_id": int(aead) if as_int else HPKE.AEAD(aead)}
